@@ -10,7 +10,7 @@ def run(ctx):
            'bad:c02-send-before-merge', 'bad:c02-send-out-of-order', 'bad:c02-sent-after-a-later-change', 'bad:range']
     # faults on (device unavailable / refusing): the change of a proposal that is reported APPLIED has reached the device
     cfgf = dict(nt=1, nx=2, sync=False, rollback=False, faults=True, crash=False)
-    way = lambda a, b: {'pred': 'reach:w-' + a + b, 'depth': 18, 'seed': {'pred': 'reach:w-' + a + '-', 'depth': 20}}
+    way = lambda a, b: {'pred': 'reach:w-' + a + b, 'depth': 18, 'seed': {'pred': 'reach:w-' + a + '-', 'depth': 20}, 'variants': 1 if quick else 3}
     qf = [('reach', 26, ['reach:fault']), ('bad', d, ['bad:c02-applied-but-never-sent']), ('bad', d, ['bad:c02-send-out-of-order'])]
     # waypoints: from a reachable state in which the first transaction is committed (not applied) and the second has failed /
     # is committed, every continuation of 14 steps
